@@ -142,8 +142,22 @@ def accessor_products():
         yield ('accessor_like_name', w), 'x = {%s: %s}; %s++;' % (w, w, w)
 
 
+def array_products():
+    """array literals with holes in every position, nested in items of other arrays, object values and call
+    arguments, before and after siblings"""
+    inner = ['[]', '[,]', '[,,]', '[1]', '[1,]', '[1,,]', '[,1]', '[,,1]', '[,1,,]', '[1,,2]', '[1,2,,]', '[[,],]', '[[1,,],,]']
+    outer = ['x = %s;', 'x = [%s, 2];', 'x = [0, %s, 2];', 'x = [0, %s];', 'x = [%s];', 'x = [{a: %s}, 1];', 'x = [g(%s), 2];',
+             'x = [, %s, , ];', 'x = [[%s, 1], 2];', 'x = [%s, , 3];', 'f(%s, 1);', 'x = {a: %s, b: 1};', 'x = [%s ? 1 : 2, 3];',
+             'x = [function () { return %s; }, 4];']
+    for (i, a), (j, o) in itertools.product(enumerate(inner), enumerate(outer)):
+        yield ('array', i, j), o % a
+    for (i, a), (j, b) in itertools.product(enumerate(inner), enumerate(inner)):
+        yield ('array_pair', i, j), 'x = [%s, %s];' % (a, b)
+        yield ('array_in_array', i, j), 'x = [%s];' % a.replace('1', b, 1)
+
+
 ALL = [binary_products, binary_products_parenthesised, unary_products, member_products, statement_products,
-       keyword_adjacency, keyword_property_products, accessor_products]
+       keyword_adjacency, keyword_property_products, accessor_products, array_products]
 LEXICAL = [keyword_property_products, accessor_products]
 
 
